@@ -363,7 +363,7 @@ registry! {
     c07_mixed_assoc_hlh, "C07", thorough, 8, plain, 2400 => c07::mixed_assoc_hlh(); // (Hash,Lww,Hash), concrete payloads, symbolic distinct stamps
     c11_twin, "C11", quick, 24, plain, 300 => c11::twin();
     c11_wal_only_entry, "C11", quick, 8, plain, 600 => c11::wal_only_entry(); // 2 segments with symbolic maximum stamps, WAL-only entry with symbolic stamp
-    c11_entries_after, "C11", quick, 24, plain, 900 => c11::entries_after(); // WAL image of 2 entries, symbolic stamps and threshold
+    c11_entries_after, "C11", quick, 24, plain, 900 => c11::entries_after(1, 1); // WAL image of 2 entries, symbolic stamps and threshold
     c11_damaged_file_isolated, "C11", thorough, 24, plain, 1800 => c11::damaged_file_isolated(); // 2 WAL files, one symbolic header byte of file 1 overwritten
     c10_damaged_file_isolated, "C10", thorough, 24, plain, 1800 => c11::damaged_file_isolated(); // 2 WAL files, one symbolic header byte of file 1 overwritten
     c10_truncation_keeps_newer, "C10", quick, 24, plain, 1200 => c11::truncation_keeps_newer(); // 2 closed WAL files, symbolic stamps and truncation threshold
@@ -371,4 +371,19 @@ registry! {
     c15_buffered_2_t3, "C15", thorough, 12, alloc, 600 => c15::buffered_agrees(b"2", 3); // RespCodec::parse on a BytesMut vs the slice-level decoder, '$' + "2" + 3 symbolic bytes
     c15_buffered_0_t2, "C15", thorough, 12, alloc, 600 => c15::buffered_agrees(b"0", 2); // RespCodec::parse on a BytesMut vs the slice-level decoder, '$' + "0" + 2 symbolic bytes
     c15_buffered_m1_t1, "C15", quick, 12, alloc, 600 => c15::buffered_agrees(b"-1", 1); // RespCodec::parse on a BytesMut vs the slice-level decoder, '$' + "-1" + 1 symbolic bytes
+    c08_apply_clock, "C08", quick, 6, plain, 900 => c08::apply_advances_clock(); // apply_remote_delta of any LWW delta (any stamp, any source replica incl. this node) on an arbitrary clock
+    c06_observers_hset_hdel_causal_preg, "C06", quick, 6, plain, 2400 => c06::observers(2, 3, true, true); // A: HSET, B: HDEL after seeing A; observers holding hash {g} apply both deltas in both orders
+    c06_observers_hset_hdel_causal, "C06", thorough, 6, plain, 2400 => c06::observers(2, 3, true, false); // A: HSET, B: HDEL after seeing A; observers without the key apply both deltas in both orders
+    c06_observers_set_del_causal, "C06", thorough, 6, plain, 2400 => c06::observers(0, 1, true, false); // A: SET, B: DEL after seeing A; observers without the key apply both deltas in both orders
+    c06_observers_set_set, "C06", thorough, 6, plain, 2400 => c06::observers(0, 0, false, false); // A: SET, B: SET; observers without the key apply both deltas in both orders
+    c06_observers_hset_hset_preg, "C06", thorough, 6, plain, 2400 => c06::observers(2, 2, false, true); // A: HSET, B: HSET; observers holding hash {g} apply both deltas in both orders
+    c06_observers_set_hset, "C06", thorough, 6, plain, 2400 => c06::observers(0, 2, false, false); // A: SET, B: HSET; observers without the key apply both deltas in both orders
+    c06_observers_hset_hdel_preg, "C06", thorough, 6, plain, 2400 => c06::observers(2, 3, false, true); // A: HSET, B: HDEL; observers holding hash {g} apply both deltas in both orders
+    c06_observers_set_hdel_causal_preg, "C06", thorough, 6, plain, 2400 => c06::observers(0, 3, true, true); // A: SET, B: HDEL after seeing A; observers holding hash {g} apply both deltas in both orders
+    c18_bucket_sound, "C18", quick, 12, hasher, 900 => c18::bucket_sound(); // two buckets of 2 arbitrary digests each
+    c10_entries_tail_empty, "C10", quick, 24, plain, 900 => c11::entries_after(1, 0); // WAL image of 2 entries, the last with an empty payload (header only)
+    c10_entries_both_empty, "C10", thorough, 24, plain, 900 => c11::entries_after(0, 0); // WAL image of 2 header-only entries
+    c10_entries_2_3, "C10", thorough, 24, plain, 1200 => c11::entries_after(2, 3); // WAL image of 2 entries with 2- and 3-byte payloads
+    c01_dispatch_incrby, "C01", thorough, 24, plain, 2400 => c01::dispatch_incrdecr(0); // through execute(): INCRBY k n on a stored one-digit integer, n = any i64
+    c01_dispatch_decrby, "C01", thorough, 24, plain, 2400 => c01::dispatch_incrdecr(1); // through execute(): DECRBY k n on a stored one-digit integer, n = any i64
 }
